@@ -89,3 +89,21 @@ func MsgTypeURL(msg proto.Message) string {
 	}
 	panic("model.MsgTypeURL: unmodelled message type")
 }
+
+// Any.GetCachedValue of an extension option: registry by type-url label (see NewExec).
+var anyCached map[string]interface{}
+
+func RegisterAny(label string, v interface{}) *codectypes.Any {
+	if anyCached == nil {
+		anyCached = map[string]interface{}{}
+	}
+	anyCached[label] = v
+	return &codectypes.Any{TypeUrl: label}
+}
+
+func AnyGetCachedValue(a *codectypes.Any) interface{} {
+	if a == nil {
+		return nil
+	}
+	return anyCached[a.TypeUrl]
+}
